@@ -249,6 +249,62 @@ func TestC06(t *testing.T) {
 		rec.Bulk(n, n, map[string]int64{"small-universe:models": n, "small-universe:ordered-builds": orders})
 		rec.Note("small universe: %d of %d models (stride %d) under all DFS start orders (%d ordered builds)", n, total, stride, orders)
 	}
+	// second bounded part: operators of ONE kind nested three levels deep. Every way of bracketing four operands of a
+	// union / an intersection (the five binary tree shapes), and for each shape every way of swapping the two operands
+	// of its three operators: within one shape all eight variants are reorderings of operands, so every relation keeps
+	// its weights (the random generator reaches this shape only at some seeds; a seeded change that made nested
+	// operators of one kind share a node was detected at one seed and missed at another).
+	if ev.Shard() == 0 {
+		leafDefs := map[string][]gen.Restriction{"r1": {{Type: "user"}}, "r2": {{Type: "user"}, {Type: "emp"}}, "r3": {{Type: "user", Wild: true}}, "r4": {{Type: "user"}, {Type: "doc", Rel: "r1"}}}
+		leaf := func(n string) *gen.Rewrite { return &gen.Rewrite{Kind: gen.Computed, Rel: n} }
+		var n int64
+		for _, kind := range []string{gen.Union, gen.Intersection} {
+			op := func(a, b *gen.Rewrite, swap bool) *gen.Rewrite {
+				if swap {
+					a, b = b, a
+				}
+				return &gen.Rewrite{Kind: kind, Kids: []*gen.Rewrite{a, b}}
+			}
+			shapes := []func(s [3]bool) *gen.Rewrite{
+				func(s [3]bool) *gen.Rewrite {
+					return op(op(op(leaf("r1"), leaf("r2"), s[0]), leaf("r3"), s[1]), leaf("r4"), s[2])
+				},
+				func(s [3]bool) *gen.Rewrite {
+					return op(op(leaf("r1"), op(leaf("r2"), leaf("r3"), s[0]), s[1]), leaf("r4"), s[2])
+				},
+				func(s [3]bool) *gen.Rewrite {
+					return op(op(leaf("r1"), leaf("r2"), s[0]), op(leaf("r3"), leaf("r4"), s[1]), s[2])
+				},
+				func(s [3]bool) *gen.Rewrite {
+					return op(leaf("r1"), op(op(leaf("r2"), leaf("r3"), s[0]), leaf("r4"), s[1]), s[2])
+				},
+				func(s [3]bool) *gen.Rewrite {
+					return op(leaf("r1"), op(leaf("r2"), op(leaf("r3"), leaf("r4"), s[0]), s[1]), s[2])
+				},
+			}
+			build := func(rw *gen.Rewrite) *gen.Model {
+				td := gen.TypeDef{Name: "doc"}
+				for _, ln := range []string{"r1", "r2", "r3", "r4"} {
+					td.Rels = append(td.Rels, gen.Relation{Name: ln, Rw: &gen.Rewrite{Kind: gen.This}, Restr: leafDefs[ln]})
+				}
+				td.Rels = append(td.Rels, gen.Relation{Name: "x", Rw: rw})
+				return &gen.Model{Schema: "1.1", Types: []gen.TypeDef{{Name: "user"}, {Name: "emp"}, td}}
+			}
+			for si, shape := range shapes {
+				base := build(shape([3]bool{}))
+				for mask := 1; mask < 8; mask++ {
+					in := c06Input{Model: base, Permuted: build(shape([3]bool{mask&1 != 0, mask&2 != 0, mask&4 != 0}))}
+					n++
+					if msg, _, _ := c06Check(in, false); msg != "" {
+						in.Text = base.String()
+						rec.Violation(in, fmt.Sprintf("nested %s, bracketing #%d, operand swaps %03b: %s", kind, si, mask, msg))
+						t.Fatalf("nested %s, bracketing #%d, operand swaps %03b: %s\n%s\n--- permuted:\n%s", kind, si, mask, msg, base.String(), in.Permuted.String())
+					}
+				}
+			}
+		}
+		rec.Bulk(n, n, map[string]int64{"nested-one-kind:operand-swaps": n})
+	}
 	rapid.Check(t, func(rt *rapid.T) {
 		noiseCall(rt) // one case in three is preceded by an unrelated, mostly failing call (see noise_test.go)
 		m := gen.GraphModel(rt, gen.GraphOpts{MultiThis: true, DupRestr: true, Interlock: true, Names: true, Deep: true, Depth3: true, SingleChild: true, NoRestr: true, Scale: true, SparseMeta: true, Hazards: rapid.IntRange(0, 7).Draw(rt, "hz") == 0, CycleBoost: rapid.IntRange(0, 4).Draw(rt, "cb") == 0})
